@@ -3,10 +3,15 @@
 REAL_ALL = ["compmec.nurbs (all modules) imported from /repo/src of the working tree, unmodified",
             "numpy as installed in /venv"]
 
+_SWARM = ("swarm dimensions varied per run: number class, point type (Fraction / float scalars, object / float64 / int64 ndarrays, reversed row views of one "
+          "parent array, SimPoint profiles), argument forms (list / tuple / ndarray / one-shot iterator), rational or not, sizes (incl. rare long curves, "
+          "large denominators, control points 1e6 from the origin), fault rate and fault kinds")
+
 _COMMON_ASSUME = [
     "sampling, not proof: a clean batch means no violation on the explored plans only",
     "the exact reference model in /verif/sim/model.py (Cox-de Boor, knot-vector semantics) is trusted; it shares no code with the library and has its own self-test",
-    "knot values keep a separation >= 1/48 in exact modes (>= 1e-3 in float mode), far above the library's 1e-6/1e-9 coincidence tolerances",
+    "distinct knots stay >= 1e-4 apart (>= 1e-3 in float mode), far above the library's 1e-6/1e-9 coincidence tolerances (exception: C18 judges affine maps on the element list alone and keeps nearly coincident knots)",
+    _SWARM,
 ]
 
 DESCRIBE = {
